@@ -318,6 +318,8 @@ def regcomp (pat : Bytes) (flg : Nat) : Option (Option Prog) :=
   | none => none
   | some none => some none
   | some (some t) =>
+    -- nested repetitions multiply: a program beyond NCODE instructions is refused (the count saturates there in C)
+    if count t + 3 > (Gen.NCODE : Int) then some none else
     let t' := (grpnum t 1).1
     some (some { code := [Inst.mark 0] ++ emit t' 1 ++ [Inst.mark 1, Inst.mtch], alloc := count t + 3, flg := flg })
 
